@@ -188,6 +188,8 @@ Proof.
   { split; [|reflexivity]. eapply linv_refused; [| | |exact H]; reflexivity. }
   destruct (cs_refused s).
   { split; [|reflexivity]. eapply linv_refused; [| | |exact H]; reflexivity. }
+  destruct (cs_silent s).
+  { split; [|reflexivity]. eapply linv_refused; [| | |exact H]; reflexivity. }
   cbv zeta. cbn [w_conns w_scripts w_cur w_now w_log].
   set (id := N.of_nat (length (w_conns w))).
   match goal with |- context [seq_next _ id PStart d ?W] => set (w1 := W) end.
@@ -465,6 +467,8 @@ Proof.
   { split; [exact Hr|]. intros i Hcur. destruct (Hc i Hcur) as [t [b Hin]]. exists t, b. right. exact Hin. }
   destruct (cs_refused s).
   { split; [exact Hr|]. intros i Hcur. destruct (Hc i Hcur) as [t [b Hin]]. exists t, b. right. exact Hin. }
+  destruct (cs_silent s).
+  { split; [exact Hr|]. intros i Hcur. destruct (Hc i Hcur) as [t [b Hin]]. exists t, b. right. exact Hin. }
   cbv zeta. cbn [w_conns w_scripts w_cur w_now w_log].
   set (id := N.of_nat (length (w_conns w))).
   match goal with |- context [seq_next _ id PStart d ?W] => set (w1 := W) end.
@@ -555,7 +559,7 @@ Theorem connect_vetted cfg d w id w' : connect cfg d w = COk id w' ->
     i = variant_ix "zvt::feig::sequences::GetSystemInfoResponse" "CVendFunctionsEnhancedSystemInformationCompletion" /\
     first_pos v = Some (VStr dev) /\ list_eqb (map lower dev) (map lower (c_serial cfg)) = true.
 Proof.
-  unfold connect. destruct (w_scripts w) as [|s rest]; [discriminate|]. destruct (cs_refused s); [discriminate|].
+  unfold connect. destruct (w_scripts w) as [|s rest]; [discriminate|]. destruct (cs_refused s); [discriminate|]. destruct (cs_silent s); [discriminate|].
   cbv zeta. cbn [w_conns w_scripts w_cur w_now w_log].
   match goal with |- context [seq_next _ ?i PStart d ?W] => set (w1 := W); set (id0 := i) end.
   destruct (seq_next _ id0 PStart d w1) as [[i1 v1|e] ph1 wr|wr|wr] eqn:E1; try discriminate.
@@ -1200,7 +1204,7 @@ Proof. unfold drop_cur. destruct (w_cur w); reflexivity. Qed.
 Lemma connect_attempts cfg d w :
   match connect cfg d w with COk _ w' | CErr _ w' => attempts (w_log w') = S (attempts (w_log w)) end.
 Proof.
-  unfold connect. destruct (w_scripts w) as [|s rest]; [reflexivity|]. destruct (cs_refused s); [reflexivity|].
+  unfold connect. destruct (w_scripts w) as [|s rest]; [reflexivity|]. destruct (cs_refused s); [reflexivity|]. destruct (cs_silent s); [reflexivity|].
   cbv zeta. cbn [w_conns w_scripts w_cur w_now w_log].
   match goal with |- context [seq_next _ ?i PStart d ?W] => set (w1 := W); set (id := i) end.
   assert (A1 : attempts (w_log w1) = S (attempts (w_log w))) by reflexivity.
